@@ -34,6 +34,9 @@ func VerifT3Replay() {
 	case "encbuf":
 		verifT3EncBuffer()
 		return
+	case "array":
+		verifT3Array()
+		return
 	case "double":
 		text = strconv.FormatFloat(math.Float64frombits(v.Uint64("double")), 'g', 17, 64)
 	case "integer":
@@ -234,6 +237,37 @@ func verifT3EncBuffer() {
 					v.Assert(string(buf[l:]) == string(want), fmt.Sprintf("EncodeInto(%q) appended %q, encoding/json gives %q", sv, buf[l:], want))
 				}
 			}
+		}
+	}
+}
+
+// verifT3Array: documents decoded into a PREFILLED [2]int by sonic and by encoding/json (the
+// model's text and the short forms around it): same error-or-not, same resulting array.
+func verifT3Array() {
+	n := int(v.Uint64("len"))
+	b := make([]byte, 0, 8)
+	for i := 0; i < 8; i++ {
+		c := byte(v.Uint64(fmt.Sprintf("in[%d]", i)))
+		if i < n {
+			b = append(b, c)
+		}
+	}
+	for _, text := range []string{string(b), "[]", " [ ] ", "[1]", "[1,2]", "[1,2,3]", "null", "[ 1 , 2 ]", "[1,]", "[,]"} {
+		a1 := [2]int{7, 8}
+		a2 := [2]int{7, 8}
+		var e1 error
+		func() {
+			defer func() {
+				if r := recover(); r != nil {
+					v.Assert(false, fmt.Sprintf("decoding %q into [2]int panicked: %v", text, r))
+				}
+			}()
+			e1 = ConfigStd.UnmarshalFromString(text, &a1)
+		}()
+		e2 := json.Unmarshal([]byte(text), &a2)
+		v.Assert((e1 == nil) == (e2 == nil), fmt.Sprintf("sonic and encoding/json disagree on accepting %q into [2]int: sonic err=%v, encoding/json err=%v", text, e1, e2))
+		if e1 == nil && e2 == nil {
+			v.Assert(a1 == a2, fmt.Sprintf("decoding %q into a prefilled [2]int{7,8}: sonic gives %v, encoding/json %v", text, a1, a2))
 		}
 	}
 }
